@@ -355,6 +355,21 @@ func c05Run(c *Ctx) {
 					for _, rm := range rootModes {
 						run(c05Case{Fn: fnFor[nd.kind], Ref: spell(rootURL, du, fragFor(bad, esc), spShort), Root: rm, Kind: "dangling-pointer"})
 					}
+					// the entry points that take no base location (the pointer is evaluated in the root given)
+					if du == rootURL && !esc {
+						ref := spell(rootURL, du, fragFor(bad, esc), spShort)
+						switch nd.kind {
+						case "schema":
+							run(c05Case{Fn: "ResolveRef", Ref: ref, Root: "typed", Kind: "dangling-pointer"})
+							run(c05Case{Fn: "ResolveRef", Ref: ref, Root: "generic", Kind: "dangling-pointer"})
+						case "parameter":
+							run(c05Case{Fn: "ResolveParameter", Ref: ref, Root: "typed", Kind: "dangling-pointer"})
+							run(c05Case{Fn: "ResolveParameter", Ref: ref, Root: "generic", Kind: "dangling-pointer"})
+						case "response":
+							run(c05Case{Fn: "ResolveResponse", Ref: ref, Root: "typed", Kind: "dangling-pointer"})
+							run(c05Case{Fn: "ResolveResponse", Ref: ref, Root: "generic", Kind: "dangling-pointer"})
+						}
+					}
 				}
 			}
 		}
